@@ -189,8 +189,95 @@ def base_packages(tier):
                  Enum("Fl64", [("f%d" % i, 1 << i) for i in range(64)], base="uint64", flags=True),
                  Enum("Fl63", [("g%d" % i, 1 << i) for i in range(63)], base="int64", flags=True),
                  Enum("Seq300", [("s%d" % i, i) for i in range(300)], base="uint16")]
+    # the same union once anonymous (a record field, a step) and once named (an alias): every backend names union types, and
+    # which of the two is met first depends on the order of the definitions
+    pk2.defs += [Record("UsesAnon", [("value", Union(P("int32"), P("float32")))]),
+                 Alias("Reading", Union(P("int32"), P("float32"))),
+                 Record("UsesNamed", [("r", N("Reading"))])]
+    pk2.protocols[0].steps += [("usesanon", N("UsesAnon")), ("reading", N("Reading")), ("usesnamed", N("UsesNamed")), ("anon", Union(P("int32"), P("float32")))]
     pk2.protocols[0].steps += [("sp", N("Sp")), ("seq3", N("Seq3")), ("fl3", N("Fl3")), ("fl8", N("Fl8")), ("fl64", N("Fl64")), ("fl63", N("Fl63")), ("seq300", N("Seq300"))]
-    return [pk, pk2]
+    # the nullable variant in a package of its own (alias first in the base order): see known_findings.txt
+    pk3 = Package("Spo", defs=[Alias("ReadingOpt", Union(None, P("int32"), P("float32"))), Record("UsesNamedOpt", [("ro", N("ReadingOpt"))]),
+                               Record("UsesAnonOpt", [("n", Union(None, P("int32"), P("float32")))])],
+                  protocols=[Protocol("Po", [("a", N("UsesNamedOpt")), ("b", N("UsesAnonOpt")), ("c", N("ReadingOpt"))])], dirname="spo")
+    return [pk, pk2, pk3]
+
+
+def verdict_families():
+    """Small models, valid and invalid, made of a few definitions: {family: {definition name: YAML chunk}}. Whether yardl accepts
+    a model may not depend on the order of its definitions or on their distribution over files; the oracle is differential (all
+    arrangements of one family get the same verdict), so nothing here states what the verdict is."""
+    rec = lambda n, *fs: "%s: !record\n  fields:\n%s" % (n, "".join("    %s: %s\n" % f for f in fs))
+    fam = {
+        "generic-union-one-bad-instantiation": {"Either": "Either<T>: [T, float]\n", "A": rec("A", ("x", "Either<int>")), "B": rec("B", ("x", "Either<float>")),
+                                                "C": rec("C", ("x", "Either<string>"))},
+        "generic-union-two-params-one-bad": {"U": "U<T, V>: [T, V]\n", "A": rec("A", ("x", "U<int, string>")), "B": rec("B", ("x", "U<int, int>")), "C": "C: U<float, bool>\n"},
+        "generic-union-all-good": {"Either": "Either<T>: [T, float]\n", "A": rec("A", ("x", "Either<int>")), "B": rec("B", ("x", "Either<string>")), "C": "C: Either<bool>*\n"},
+        "generic-map-key-one-bad": {"M": "M<K>: K->int\n", "A": rec("A", ("x", "M<string>")), "R": rec("R", ("q", "int")), "B": rec("B", ("x", "M<R>"))},
+        "generic-map-key-alias-one-bad": {"M": "M<K>: K->int\n", "A": rec("A", ("x", "M<int>")), "K2": "K2: int*\n", "B": rec("B", ("x", "M<K2>"))},
+        "generic-optional-of-optional": {"O": "O<T>: T?\n", "A": rec("A", ("x", "O<int>")), "B": rec("B", ("x", "O<int?>"))},
+        "generic-record-field-union-one-bad": {"G": rec("G<T>", ("u", "[T, string]")), "A": rec("A", ("x", "G<int>")), "B": rec("B", ("x", "G<string>")), "P": "P: !protocol\n  sequence:\n    a: G<float>\n"},
+        "nested-generic-one-bad": {"In": "In<T>: [T, int]\n", "Out": rec("Out<T>", ("i", "In<T>")), "A": rec("A", ("x", "Out<string>")), "B": rec("B", ("x", "Out<int>"))},
+        "direct-cycle": {"A": rec("A", ("b", "B")), "B": rec("B", ("c", "C")), "C": rec("C", ("a", "A?"))},
+        "cycle-through-vector": {"A": rec("A", ("b", "B*")), "B": rec("B", ("a", "A*")), "C": rec("C", ("a", "A"))},
+        "alias-cycle": {"A": "A: B\n", "B": "B: C*\n", "C": "C: A?\n", "D": rec("D", ("a", "A"))},
+        "unknown-type-in-one-definition": {"A": rec("A", ("x", "int")), "B": rec("B", ("x", "Missing")), "C": rec("C", ("a", "A"), ("b", "B"))},
+        "computed-field-switch-over-generic-union": {"Either": "Either<T>: [T, float]\n",
+                                                     "A": "A: !record\n  fields:\n    x: Either<int>\n  computedFields:\n    k:\n      !switch x:\n        int: 1\n        float: 2\n",
+                                                     "B": "B: !record\n  fields:\n    x: Either<string>\n  computedFields:\n    k:\n      !switch x:\n        int: 1\n        _: 2\n"},
+        "enum-duplicate-value-in-one": {"E1": "E1: !enum\n  values: [a, b]\n", "E2": "E2: !enum\n  values:\n    a: 1\n    b: 1\n", "R": rec("R", ("e", "E1"), ("f", "E2"))},
+        "protocol-uses-bad-instantiation": {"Either": "Either<T>: [T, float]\n", "P1": "P1: !protocol\n  sequence:\n    a: Either<int>\n", "P2": "P2: !protocol\n  sequence:\n    a: !stream\n      items: Either<float>\n"},
+    }
+    return fam
+
+
+def verdict_part(chk, quick):
+    fams = verdict_families()
+    jobs = []
+    for name, chunks in fams.items():
+        names = list(chunks)
+        for perm in itertools.permutations(names):
+            jobs.append((name, "order:" + ",".join(perm), {"model.yml": "\n".join(chunks[n] for n in perm)}))
+            if not quick or perm[0] <= perm[-1]:
+                # the same order imposed through file names (files are read in sorted order)
+                jobs.append((name, "files:" + ",".join(perm), {"f%02d.yml" % i: chunks[n] for i, n in enumerate(perm)}))
+        half = len(names) // 2
+        for a in itertools.combinations(names, half):
+            rest = [n for n in names if n not in a]
+            jobs.append((name, "split:" + ",".join(a) + "|" + ",".join(rest), {"a.yml": "\n".join(chunks[n] for n in a), "b.yml": "\n".join(chunks[n] for n in rest)}))
+    base = os.path.join(build.scratch(), "c13v")
+
+    def run(ij):
+        i, (name, label, files) = ij
+        root = os.path.join(base, "v%d" % i)
+        build.write_tree(root, dict({"m/_package.yml": "namespace: Vd\n"}, **{"m/" + k: v for k, v in files.items()}))
+        rc, out, err = build.yardl(["validate"], cwd=os.path.join(root, "m"))
+        shutil.rmtree(root, ignore_errors=True)
+        if rc not in (0, 1) or "panic:" in err or "goroutine " in err:
+            return "crash", err[-400:]
+        msgs = sorted(set(re.sub(r"^.*?\.ya?ml:\d+:\d+: ", "", l.strip()) for l in err.splitlines() if re.search(r"\.ya?ml:\d+:\d+: ", l)))
+        return ("accepted" if rc == 0 else "rejected"), msgs
+    with ThreadPoolExecutor(build.NCPU) as ex:
+        results = list(ex.map(run, enumerate(jobs)))
+    by = {}
+    for (name, label, files), (verdict, detail) in zip(jobs, results):
+        chk.count()
+        chk.nontriv(hash((name, label)))
+        chk.outcome(("verdict", name, verdict))
+        by.setdefault(name, []).append((label, verdict, detail, files))
+    for name, lst in by.items():
+        for label, verdict, detail, files in lst:
+            if verdict == "crash":
+                chk.fail("verdict/crash/%s" % name, "yardl validate crashes on arrangement %s of family %s: %s" % (label, name, detail), {"family": name, "arrangement": label, "model_files": files})
+        verdicts = sorted(set(v for _, v, _, _ in lst if v != "crash"))
+        if len(verdicts) > 1:
+            acc = next(x for x in lst if x[1] == "accepted")
+            rej = next(x for x in lst if x[1] == "rejected")
+            chk.fail("verdict/depends-on-arrangement/%s" % name,
+                     "family %s: the same definitions are accepted as %s but rejected as %s (%s); %d arrangements accepted, %d rejected" % (
+                         name, acc[0], rej[0], "; ".join(rej[2][:2])[:300], sum(1 for x in lst if x[1] == "accepted"), sum(1 for x in lst if x[1] == "rejected")),
+                     {"family": name, "accepted_arrangement": acc[0], "accepted_files": acc[3], "rejected_arrangement": rej[0], "rejected_files": rej[3], "messages": rej[2]})
+    chk.sample({"verdict_families": list(fams), "arrangements": len(jobs)})
 
 
 def main(tier):
@@ -200,7 +287,9 @@ def main(tier):
                 "rewrites: for every type occurrence (record field, alias, protocol step) each alternative spelling (expanded top level, fully "
                 "expanded, fully expanded with primitive aliases, shorthand with aliases, [null, T]) alone (deviation 1; thorough: all pairs of "
                 "sites over a stride) and all sites at once; non-documentation comments, blank lines, quoting; every rotation / reversal / adjacent "
-                "swap of the definition order and 2-3 file splits; non-trivial = distinct rewritten model texts")
+                "swap of the definition order and 2-3 file splits; plus small valid and invalid families (generic instantiations of which one is "
+                "illegal, cycles, unknown types) in every permutation of their definitions, as one file, as one file per definition and as every "
+                "two-file split: the verdict must be the same for all arrangements; non-trivial = distinct rewritten model texts")
     build.yardl_bin()
     slot_counter = itertools.count()
     jobs = []        # (kind, label, pkg index, model files)
@@ -282,7 +371,7 @@ def main(tier):
                          "pure syntax alternative '%s' changes generated files %s" % (label, diff[:5]), dict(where, changed_files=diff[:20]))
         else:
             if imp is not None:
-                chk.fail("generated-python-broken-after-reordering/%s" % label, "the generated Python package of the re-ordered model (%s) does not import: %s" % (label, imp[-300:]), where)
+                chk.fail("generated-python-broken-after-reordering/%s%s" % ("" if pi < 2 else pkgs[pi].namespace + "/", label), "the generated Python package of the re-ordered model (%s) does not import: %s" % (label, imp[-300:]), where)
             if sch != sch0:
                 diff = sorted(p for p in set(sch) | set(sch0) if sch.get(p) != sch0.get(p))
                 chk.fail("schema-differs/%s" % label, "re-ordering / re-splitting (%s) changes the schema of protocols %s" % (label, diff[:5]), dict(where, protocols=diff))
@@ -313,6 +402,7 @@ def main(tier):
                              {"protocol": pr.name, "mode": mode, "base": [a[0], a[2][:200]], "rewritten": [b[0], b[2][:200]]})
         pr0.close()
         pr1.close()
+    verdict_part(chk, quick)
     chk.sample({"rewrites": len(jobs), "sites": sum(len(sites(p)) for p in pkgs), "examples": [j[1] for j in jobs[:5]]})
     chk.assumptions += ["documentation comments (attached to an element) legitimately change generated docstrings and are not rewritten here",
                         "model.json is compared for pure syntax alternatives only (it records definition order)"]
